@@ -6,7 +6,8 @@
 (* srv in dav | cal | card | principal; level = hierarchy level (for dav:  *)
 (* 0 root, 1 an existing file, 2 an existing collection, 3 absent);        *)
 (* header classes absent / valid values / "bad"; ctype none | xml |        *)
-(* textxml | obj (the service's object type) | other | malformed;          *)
+(* textxml | obj (the service's object type) | objbadparam (that type with *)
+(* unparsable parameters) | other | malformed;                             *)
 (* body none | valid (for the method) | emptyxml | wrongroot | truncated | *)
 (* garbage | badobj (unparsable iCalendar / vCard).                        *)
 (* Expect(r) is the statement's classification:                            *)
